@@ -45,8 +45,11 @@ func Verif_C13_HTTP() {
 	useTLS := zv.Bool("tls-connection")
 	streaming := zv.Bool("streaming")
 	hasCreds := zv.Bool("has-creds")
-	credKind := zv.Choose("cred-metadata", 4) // 0 empty, 1 disjoint key, 2 overlapping key, 3 error
-	secure := zv.Bool("creds-require-security")
+	credKind, secure := 0, false
+	if hasCreds {
+		credKind = zv.Choose("cred-metadata", 6) // 0 nil map, 1 disjoint key, 2 overlapping key, 3 error, 4 overlapping key spelled with an upper-case letter, 5 empty non-nil map
+		secure = zv.Bool("creds-require-security")
+	}
 	callerMD := zv.Bool("caller-has-metadata")
 
 	host := "example.test"
@@ -91,6 +94,11 @@ func Verif_C13_HTTP() {
 			creds.md = map[string]string{"shared": "cred-s"}
 		case 3:
 			creds.err = errors.New("no credentials available")
+		case 4:
+			// metadata keys are case-insensitive: this is the caller's key "shared"
+			creds.md = map[string]string{"Shared": "cred-s"}
+		case 5:
+			creds.md = map[string]string{}
 		}
 		opts = append(opts, grpc.PerRPCCredentials(creds))
 	}
@@ -139,7 +147,7 @@ func Verif_C13_HTTP() {
 	if hasCreds && credKind == 1 {
 		wantAuth = []string{"token"}
 	}
-	if hasCreds && credKind == 2 {
+	if hasCreds && (credKind == 2 || credKind == 4) {
 		wantShared = append(wantShared, "cred-s")
 	}
 	verifSameList(seenMD["k1"], wantK1, "handler-sees-caller-metadata")
